@@ -133,9 +133,16 @@ CHECKS = {
         "remaining time; for every modelled class (all 64 shipped component classes), whenever validity reports the skill usable, use returns no "
         "rejection (all parameters, all states), including key-down skills whose validity mirrors use exactly (after the repair de960db of a "
         "genuine defect found by this check). Views of the models are compared in Coq with the real view methods on every run; totality of "
-        "the Python views and well-formedness of the aggregated buff are tested on all jobs, not proved.",
-   note="Trusted: as C07. 'Views never raise' and well-formedness of the aggregated buff are explored on all jobs (every view of every installed "
-        "component in reachable states), not proved.",
+        "the Python view METHODS is tested on all jobs, not proved. Store level (Model/DispatchViews.v): in every store reachable from the "
+        "initial store by plays, every component view, every aggregation view and the clock view evaluate without a store-access error "
+        "and leave the store unchanged (presence invariant established by init under the generated obligation 'every bind target is "
+        "owned', preserved by every dispatch), and the total buff is the fold of Stat addition over the component buffs, independent of "
+        "their order (C10_views_never_raise_on_reachable, C10_views_read_only, C10_total_buff_is_sum). At the engine's observation point "
+        "(viewer right before a USE vs the events of that USE) the statement is FALSE on the unchanged tree when callbacks of the previous "
+        "action are pending (open known finding C10-validity-ignores-pending-callbacks, two shipped witnesses, refuted in the dispatch "
+        "model; true and proved when no pending callback reaches an entity the skill depends on).",
+   note="Trusted: as C07 plus the H-dispatch tie of the store/view model. Totality of the view methods' own Python code is explored on all "
+        "jobs (every view of every installed component in reachable states), not proved.",
    technique="Coq proof over hand-written executable models of views and use for all component classes + Coq-evaluated correspondence + implementation-side search (validity vs use on every installed component)",
    design="7 C10"),
  "C13": dict(
@@ -192,14 +199,20 @@ CHECKS = {
    technique="Coq proof (induction on the search budget; finite table facts by vm_compute over regenerated tables) + Coq-evaluated differential run against BonusCalculator.compute",
    design="7 C18"),
  "C19": dict(
-   text="39 Coq theorems over an executable model of StepwizeOptimizer, the step iterator and the weapon-potential brute force, for all value/cost "
+   text="67 Coq theorems. 39 over an executable model of StepwizeOptimizer, the step iterator and the weapon-potential brute force, for all value/cost "
         "functions, maxima, budgets, start states: every visited state is within budget, within per-slot limits and >= the start state; "
         "termination; local optimality at termination; determinism; the iterator yields each multiset of <= min(depth,4) increments exactly "
         "once; never-worse under 'value does not fall along a legal step' (the unconditional form is refuted: rewards above -1 are accepted); "
         "weapon potential result is the arg-max over legal combinations and pruning is safe under a stated replacement hypothesis; clone() of "
-        "the four targets forwards every constructor parameter (table REGENERATED from the source, vm_compute obligation).",
-   note="Trusted: Coq kernel; translator tools/tr_fields.py; objectives of the real targets are abstract (their monotonicity/positivity monitored "
-        "on real runs); PresetOptimizer orchestration not modelled.",
+        "the four targets forwards every constructor parameter (table REGENERATED from the source, vm_compute obligation). For the four REAL "
+        "step-wise targets (hyper stat, union squad, union occupation, link; Props/C19_targets.v, 28 theorems) the objective is no longer "
+        "abstract: option and cost tables and the targets' own arithmetic are REGENERATED from the source on every run, every table is proved "
+        "field-wise non-decreasing and non-negative (finite sweep), get_value is proved monotone in the state through Stat addition and C12's "
+        "damage-factor monotonicity, so never-worse, budget, bounds, presets-kept and local optimality hold for them with no monitored "
+        "hypothesis (reference block non-negative, armour term >= 0, ignored defence <= 100 - the last one shown necessary by a witness).",
+   note="Trusted: Coq kernel; translators tools/tr_fields.py, tools/tr_targets.py (tables by running the tree's loaders, arithmetic by ast; "
+        "validated per run against the real target objects); weapon-potential prune safety stays a stated hypothesis; PresetOptimizer "
+        "orchestration not modelled; exact rationals vs binary64.",
    technique="Coq proof over a hand-written executable model + Coq-evaluated correspondence with the real StepwizeOptimizer on table targets + generated clone-table obligation + implementation-side monitoring on the real targets",
    design="7 C19"),
  "C20": dict(
